@@ -133,7 +133,21 @@ def aggregate(ck, results, floor_name=None):
     nrep = 0
     for r in results:
         if not r['ok']:
-            raise common.AnalysisBroken('TU %s: %s' % (r['cfg'], r['broken'][:2000]))
+            msg = r['broken']
+            if 'does not compile' in msg and 'small_vector.hpp' in msg and 'error' in msg:
+                # The probe corpus only contains valid uses of the public API and compiles on the
+                # unchanged tree; if the header now rejects one of them, the operations it names
+                # cannot have the property at all.  Reported once per configuration class.
+                import re as _re
+                errs = _re.findall(r'[^\n]*small_vector\.hpp:\d+:\d+: error: [^\n]*', msg)
+                uses = _re.findall(r'sv_driver\.hpp:\d+:\d+: note: in instantiation of [^\n]*', msg)
+                unit = r['cfg']
+                ck.violation('corpus', {'unit': _re.sub(r'\.N\d+\.M\d+', '', unit).split('.c++')[0], 'defect': 'valid use of the public API is ill-formed'},
+                             'R17.3/corpus: a valid use of the public API no longer compiles in configuration %s: %s [%s]'
+                             % (unit, (errs[0] if errs else msg[-300:]).strip()[-300:], (uses[0].strip()[-200:] if uses else '')),
+                             {'unit': unit, 'compiler_output_tail': msg[-1500:]})
+                continue
+            raise common.AnalysisBroken('TU %s: %s' % (r['cfg'], msg[:2000]))
         ck.unit(r['cfg'])
         for rep in r['res']['reports']:
             nrep += 1
